@@ -25,7 +25,7 @@ RULE = ("generated: 2-4 sender tasks x 1-4 stanzas each (sizes 1 B - 3 KiB; iq /
         "stack.send() by all threads side by side, or transport + protocol layers + interface-layer application; optionally the real keep-alive thread "
         "firing on a virtual clock tick, optionally senders started while the handshake is still in progress (round 0/1), and a "
         "schedule of up to 400 choice integers resolved at lock/queue operations and function calls of the anchored files (thorough: "
-        "also at every line of the layer base class, noise layer and segments layer). Non-trivial = the executed schedule switched "
+        "also at every line of the layer base class, noise layer and segments layer). First sends: one preemption at every line/call of the first two sends through a freshly logged-in stack (complete), and free line-level schedules or 2-3 preemptions for the first sends of 2-3 threads. Non-trivial = the executed schedule switched "
         "tasks at least once at a yield point inside a traced function call while two or more senders were alive. "
         "Distinct = distinct canonical JSON.")
 ASSUMPTIONS = [
